@@ -30,6 +30,8 @@ fn shape(p: &mut Profile, r: &mut Rng) {
     if r.pct(40) {
         p.flip_pm = p.flip_pm.max(30);
     }
+    // bursts that re-bind the xml prefix above names that use it and copy something out from below
+    p.motif_pct = *r.pick(&[0u32, 2, 4]);
 }
 
 /// the root of the tree of `l` in the world before the step
@@ -186,7 +188,7 @@ pub fn engine() -> ForestEngine {
     ForestEngine {
         cfg: ForestCfg { property: "C12", extra: Some(extra), shape, enumerate_every: 0, claim: Some(claim), fork_check: true },
         level: "exploration",
-        quick_runs: 20_000,
+        quick_runs: 40_000,
         thorough_runs: 500_000,
         rule: "Seeded histories with clone_node / clone_with_prefixes of nodes of all seven kinds at random steps (consolidation in either state, adjacent text present), then mutations on either side. At clone time: the clone must equal the model's copy (merging of adjacent text when consolidation is on), deep_equal(source, clone) holds, the clone consists only of handles that did not exist before, the source and every other tree read back unchanged; clone_with_prefixes: copy plus declarations, own declarations first, and if the source serialises in place the clone serialises alone to the same expanded names. Later steps: the whole forest is compared with the model after every call, and a mismatch on the clone's or the source's tree caused by a call on the other side is reported as other-side-changed. Xot::clone: every call is executed on the store itself and on a clone of it (same hash-seed stream) and must give identical outcome, forest and serialisations, while a third clone taken before the call must read back unchanged. Non-trivial/distinct as for C04.",
     }
